@@ -105,7 +105,7 @@ sys.exit(1 if got != want else 0)
 
 RHS = ['y + 1', 'y+1', '  y  +  2*w ', '(y - w)/4', '-y', '0.5 * y ** 2', 'max(y, w)']
 EQ_SPACING = ['%s = %s', '%s=%s', '  %s   =   %s  ', '%s =%s', '\t%s = %s']
-LAG_FORMS = ['%s(k-1)', '%s(t-1)', '%s (k -1 )']
+LAG_FORMS = ['%s(k-1)', '%s(t-1)', '%s (k -1 )', '%s (t -1 )', '%s (k-1)']      # incl. the tokenizer-spaced forms the model emits for X(k-1) and X(t-1), and a blank before the bracket
 
 
 MARKERS = ['# exogenous section', '   # Exogenous Variables', '\t#exogenous', 'exogenous', '  Exogenous  ', '# EXOGENOUS', ' #   Exogenous variables follow   ']
